@@ -144,7 +144,7 @@ def g2_g3(F, rep):
                     pd = op_place(st2["d"])
                     dd = b.single_def(pd["l"]) if pd is not None and not pd["p"] else None
                     srcs = _discr_sources(b, dd) if dd and dd[2] == "assign" and dd[3]["k"] == "discr" else ["?"]
-                    bad = [c for c in srcs if not re.search(r"(Try>?::branch|from_residual|decompress_deflate_stream|parse_zip_stream|parse_idat|skip_gzip_header|next_signature|Iterator::next|into_iter)$", c) and c != "?"]
+                    bad = [c for c in srcs if not re.search(r"(Try>?::branch|from_residual|decompress_deflate_stream|parse_zip_stream|parse_idat|skip_gzip_header|next_signature|Iterator::next|into_iter|result::Result::(ok|as_ref|map_err|is_ok)|option::Option::(as_ref|ok_or))$", c) and c != "?"]
                     if not bad:
                         continue
                     extra.append("outcome of %s" % bad[0])
@@ -599,7 +599,7 @@ def _discr_sources(b, dd):
             if d[2] == "call":
                 n = strip_generics(callee_def(d[3]))
                 out.append(n)
-                if re.search(r"Try>?::branch$", n):
+                if re.search(r"Try>?::branch$|result::Result::(ok|as_ref|map_err|is_ok)$|option::Option::(as_ref|ok_or)$", n):
                     for a in d[3]["args"]:
                         q = op_place(a)
                         if q is not None:
